@@ -3343,6 +3343,7 @@ pub(crate) async fn parse_module_source_and_info(
       opts.content,
       maybe_charset,
       opts.mtime,
+      opts.maybe_referrer,
     )
     .map(|source| ModuleSourceAndInfo::Json {
       specifier: opts.specifier,
@@ -3396,6 +3397,7 @@ pub(crate) async fn parse_module_source_and_info(
         opts.content,
         maybe_charset,
         opts.mtime,
+        opts.maybe_referrer,
       )?;
       match module_analyzer
         .analyze(&opts.specifier, source.text.clone(), media_type)
@@ -5329,6 +5331,7 @@ impl<'a, 'graph> Builder<'a, 'graph> {
                         content,
                         None, // no charset for JSR
                         None, // no mtime for JSR
+                        item.maybe_range.as_ref(),
                       ) {
                         Ok(source) => {
                           module.source = source;
@@ -5342,6 +5345,7 @@ impl<'a, 'graph> Builder<'a, 'graph> {
                         content,
                         None, // no charset for JSR
                         None, // no mtime for JSR
+                        item.maybe_range.as_ref(),
                       ) {
                         Ok(source) => {
                           module.source = source;
@@ -7137,6 +7141,7 @@ fn new_source_with_text(
   bytes: Arc<[u8]>,
   maybe_charset: Option<&str>,
   mtime: Option<SystemTime>,
+  maybe_referrer: Option<&Range>,
 ) -> Result<ModuleTextSource, ModuleError> {
   let charset = maybe_charset.unwrap_or_else(|| {
     deno_media_type::encoding::detect_charset(specifier, bytes.as_ref())
@@ -7149,7 +7154,7 @@ fn new_source_with_text(
     .map_err(|err| {
       ModuleErrorKind::Load {
         specifier: specifier.clone(),
-        maybe_referrer: None,
+        maybe_referrer: maybe_referrer.cloned(),
         err: ModuleLoadError::Decode(Arc::new(DecodeError { mtime, err })),
       }
       .into_box()
